@@ -24,8 +24,10 @@ def assist(project, source, position, filename=None, debug=False):
     ctx = EvalCtx(project)
     ln, col = position
     line = source.lines[ln - 1][:col]
-    if line.lstrip().startswith('from ') and ' import ' not in line:
-        iname = line.rpartition(' ')[2]
+    match = re.match(r'\s*from\s+([.\w]*)$', line)
+    if match:
+        # the cursor is in the module name of a from-import
+        iname = match.group(1)
         package, sep, prefix = iname.rpartition('.')
         if (not package or package.startswith('.')) and sep:
             package += '.'
